@@ -107,6 +107,17 @@ theorem errs_decodeDct (dct : Dct) : ErrsIn DecErr (decodeDct dct) := by
   | leading bt enc hl bl => simp only []; errs
   | paramLen bt enc hl key => simp only []; errs
 
+/-- `convert_internal_to_physical` of LINEAR / TEXTTABLE / IDENTICAL ends in the decode errors of its `odxraise` sites, or in
+    what the call site makes of a ZeroDivisionError -/
+theorem errs_methodI2P {σ : Type} (arith : Err) (h : DecErr arith) (m : Compu.Method) (i : Compu.Val) :
+    ErrsIn DecErr (methodI2P arith m i : OdxM σ (Option Compu.Val)) := by
+  unfold methodI2P
+  cases m <;> simp only [] <;> repeat (first | exact errsIn_raise _ _ h | split | errs_step)
+
+theorem errs_dopI2P {σ : Type} (m : Compu.Method) (v : IVal) : ErrsIn DecErr (dopI2P m v : OdxM σ (Option IVal)) := by
+  unfold dopI2P
+  repeat (first | exact errs_methodI2P _ (by simp [DecErr]) _ _ | split | errs_step)
+
 set_option maxHeartbeats 1600000 in
 /-- every decoding function of the model, by induction on the fuel -/
 theorem errs_decode_all (fuel : Nat) :
@@ -136,7 +147,8 @@ theorem errs_decode_all (fuel : Nat) :
       cases d <;> unfold decodeDop <;>
         repeat (first
           | exact ihDop _ | exact ihStatic _ _ _ | exact ihN _ _ | exact ihEnd _ | exact ihMark _ _ _ | exact ihComp _
-          | exact ihParam _ | exact errs_decodeDct _ | errs1)
+          | exact ihParam _ | exact errs_decodeDct _ | exact errs_dopI2P _ _
+          | exact errs_methodI2P _ (by simp [DecErr]) _ _ | errs1)
     · intro item sz n
       unfold decodeStaticItems
       repeat (first | exact ihDop _ | exact ihStatic _ _ _ | errs1)
